@@ -34,7 +34,9 @@ def vcross(a, b):
 
 
 def vnorm(a):
-    return math.sqrt(vdot(a, a))
+    # a position with a NaN in it is infinitely far from everything (so that "distance > tolerance" holds for it)
+    n = math.sqrt(vdot(a, a))
+    return float("inf") if n != n else n
 
 
 def vunit(a):
